@@ -113,6 +113,10 @@ func New(t *tape.Tape, o Options) (*Universe, error) {
 		if u.DigestType == bufmodule.DigestTypeB4 {
 			m.BufYAML = []byte(fmt.Sprintf("version: v1\nname: %s\n", m.Name))
 			m.BufLock = []byte("version: v1\n")
+			if t.Draw("emptylock", 4) == 3 {
+				// an existing but empty buf.lock is still part of the b4 digest
+				m.BufLock = []byte{}
+			}
 			yo, err := bufmodule.NewObjectData("buf.yaml", m.BufYAML)
 			if err != nil {
 				return nil, err
